@@ -403,7 +403,10 @@ def cmdSet (toks : List String) : String :=
         match w.st.members[i]? with
         | some m => if m.registered || m.closedReported then some s!"{i}:{m.id}" else none
         | none => none
-      s!"{" ".intercalate per} ids={",".intercalate ids} blocked={w.blocked}"
+      -- `batching=free` (in-process transport): how many events one select call returns is not part of the contract, so the
+      -- number of select calls that found nothing new is not reported
+      if hdr.contains "batching=free" then s!"{" ".intercalate per} ids={",".intercalate ids}"
+      else s!"{" ".intercalate per} ids={",".intercalate ids} blocked={w.blocked}"
   | _ => "bad-request"
 
 /-! ### ideal channels (C03 / C09 / C19 / C04) -/
